@@ -453,7 +453,7 @@ func runC14(w *W) {
 	}
 	nEnum, nHist := 700, 5000
 	if w.thorough() {
-		nEnum, nHist = 12000, 120000
+		nEnum, nHist = 40000, 400000
 	}
 	w.editDocs(nEnum, func(g string, doc []byte, k int) {
 		if len(doc) < 4000 {
